@@ -16,6 +16,7 @@ CLAIMS = {
  'C06': ('proof', 'mask_conditions (translated fn0..fn7 = ISO Table 10), score_eq_iso (model of mask_scores = ISO 7.8.3.1 penalty incl. every overlapping 1:1:3:1:1 occurrence), auto_is_first_best (candidate loop returns the first optimum); every candidate of real symbols re-scored by the independent ISO penalty spec', 'N4 is modelled in exact integer arithmetic; equality with the float formula of the code is checked by correspondence.'),
  'C07': ('proof', 'findMode_eq_autoMode, makeSegment_auto, makeSegment_requested_partial (empty content with kanji/hanzi excluded), mode_supported_iff_cci; spec evaluated on exhaustive small scopes of real output', ''),
  'C10': ('proof', 'runs_cover, runs_maximal, raster_row, rel_abs (SVG/EPS), y_flip, page_box, pdf_offsets about the model of matrix_to_lines and the vector emitters; every real SVG/EPS/PDF/TeX document parsed and rasterised on the module grid by the Lean spec with exact rationals', 'XML/PS/PDF tokenising and zlib inflate are done by the Python harness (container parsing); the token-level interpreters of the judge are not proved equal to the model (full statement kept as a def).'),
+ 'C16': ('proof', 'unescape_escape, escaped_has_no_unescaped_delimiter, wifi_roundtrip, mecard_roundtrip, vcard_one_line, vcard_lines, geo_roundtrip, mailto_roundtrip, epc_amount, epc_layout, epc_fits_13M (all unbounded over strings) about the model of helpers.py with escape tables and EPC constants regenerated from the source; every real payload parsed by the Lean spec; symbols of the make_* factories decoded by the reference decoder', 'epc refusal equivalence is compared and judged, not proved (def epc_refusals_statement). str(float), strftime and codec availability are parameters.'),
  'C13': ('proof', 'stream_layout_partial_partial / stream_layout_iff / stream_layout_d1 (model of terminator + padding = ISO tail exactly outside the recorded deviation D1, = predicted deviation on it), iso_tail_fills_capacity, remainder_bits_iso; ISO tail recomputed by the Lean spec on data codewords recovered from real symbols', 'Known finding D1 is reported as KNOWN-FINDING, any other deviation is a violation.'),
 }
 checks = []
